@@ -669,12 +669,16 @@ repsLoop:
 		}
 
 		var counter int
+		signers := []interop.PublicKey{} // members with already counted signature
 		for _, sig := range sigs[i] {
 			pubsI := Nodes(cid, uint8(i))
 			for iterator.Next(pubsI) {
 				pub := iterator.Value(pubsI).(interop.PublicKey)
 				if crypto.VerifyWithECDsa(msg, pub, sig, crypto.Secp256r1Sha256) {
-					counter++
+					if !hasKey(signers, pub) {
+						signers = append(signers, pub)
+						counter++
+					}
 					break
 				}
 			}
@@ -689,6 +693,16 @@ repsLoop:
 	}
 
 	return true
+}
+
+// hasKey checks whether the list contains the public key.
+func hasKey(list []interop.PublicKey, key interop.PublicKey) bool {
+	for i := range list {
+		if key.Equals(list[i]) {
+			return true
+		}
+	}
+	return false
 }
 
 // CommitContainerListUpdate commits container list changes made by
